@@ -134,6 +134,10 @@ def gen_free(rng: random.Random, idx: int) -> dict:
             req[refs[i]] = rng.sample(refs[:i], min(i, k))
     p_prod = rng.choice([0.35, 0.5, 0.7])
     stages = [S(r, req[r], tasks=_tasks(rng, r, keys, False, p_prod), ctx=_own(rng, r, keys, 0.15)) for r in refs]
+    for sd in stages:                  # a stage that ends FAILED_CONTINUE (its last task fails, the workflow goes on):
+        if rng.random() < 0.2:         # what it produced counts like the outputs of a succeeded stage
+            sd["tasks"][-1]["fc"] = True
+            sd["cof"] = True
     if rng.random() < 0.25:
         rng.shuffle(stages)            # storage order need not be topological
     return P("f%03d" % idx, stages, df=True, kind=dict(keys), shape=shape)
@@ -197,7 +201,11 @@ def fixed_programs() -> list[dict]:
     side = P("fside", [S("a", tasks=[TT("a.1", df={"x": a})]), S("b", ["a"], tasks=[TT("b.1", df={"x": a, "l": a})]),
                        S("c", tasks=[TT("c.1", df={"x": a, "l": al})]), S("d", ["b", "c"])],
              df=True, kind=kd, shape="side")
-    return [probe, diamond, side]
+    fc = P("ffailc", [S("a", tasks=[TT("a.1", df={"x": a, "l": al})]),
+                      S("b", ["a"], tasks=[dict(TT("b.1", df={"x": a, "y": a, "l": a}), fc=True)], cof=True),
+                      S("c", ["b"], tasks=[TT("c.1", df={"l": a})]), S("d", ["c"])],
+           df=True, kind=kd, shape="failed-continue")
+    return [probe, diamond, side, fc]
 
 
 def all_dags(n: int) -> list[dict[str, list[str]]]:
@@ -314,6 +322,8 @@ def _engine_classes():
                     continue
                 atom = "%s.%s.%d" % (stage.ref_id, k, n)
                 out[k] = atom if kinds[k] == "s" else ([atom, "dup"] if d["dup"] else [atom])
+            if script.get("fc"):      # the stage ends FAILED_CONTINUE, with outputs
+                return TaskResult.failed_continue("scripted failure", outputs=out)
             return TaskResult.success(outputs=out)
 
     class DFRun(Run):
